@@ -1,8 +1,209 @@
-(* C15: multipath SCION measurement probes pairwise distinct paths, combined by FTM. *)
-From ST Require Import Base.Ints Model.Sample Proofs.SampleProofs.
+(* C15: multipath SCION measurement probes pairwise distinct paths, combined by FTM.
+
+   Models: Model/Sample.v (base/crypto RandIntn, Sample), Model/PathAssign.v
+   (client.MeasureClockOffsetSCION and the interleaved-mode state of a SCION
+   client), oracle Model/PathOracle.v.  Paths are identified by their index in
+   the offered slice; `fps` gives the fingerprint of each (ids; equal
+   fingerprints allowed); `cs` are the clients' states; the random generator is
+   a tape of 32-bit words followed by the default word `d` (every eventually
+   constant stream), `c` = the context is already cancelled.
+   `somes asg` lists the paths of the participating clients. *)
+From ST Require Import Base.Ints Base.Sorting Model.NtpTime Model.Ftm Model.Sample Model.PathAssign Model.PathOracle
+  Proofs.SampleProofs Proofs.PathAssignProofs Proofs.PathOracleProofs Proofs.ReservoirProofs Proofs.C15Main.
+From Coq Require Import Sorting.Permutation Sorting.Sorted.
 Open Scope Z_scope.
 
+(* Clause 1: every participating client probes over a different, offered path - for every tape. *)
+Theorem C15_distinct : forall fps cs c d tape,
+  Z.of_nat (length fps) <= max_i64 -> words tape -> word d ->
+  forall asg resets rest, assign fps cs c d tape = AOk asg resets rest ->
+  NoDup (somes asg) /\ (forall p, In p (somes asg) -> (p < length fps)%nat) /\ length asg = length cs.
+Proof. exact distinct. Qed.
+Print Assumptions C15_distinct.
+
+(* Clause 2: exactly min(clients, paths) clients take part (so never more than there are paths) ... *)
+Theorem C15_count : forall fps cs c d tape,
+  Z.of_nat (length fps) <= max_i64 -> words tape -> word d ->
+  forall asg resets rest, assign fps cs c d tape = AOk asg resets rest ->
+  length (somes asg) = Nat.min (length cs) (length fps) /\ (0 < Nat.min (length cs) (length fps))%nat.
+Proof. exact count. Qed.
+Print Assumptions C15_count.
+
+(* ... the round reports errNoPath only when nobody can take part, everybody is reset then ... *)
+Theorem C15_error_only_without_participants : forall fps cs c d tape resets rest,
+  assign fps cs c d tape = ANoPath resets rest ->
+  Nat.min (length cs) (length fps) = O /\ resets = map (fun _ => true) cs.
+Proof. exact assign_nopath. Qed.
+Print Assumptions C15_error_only_without_participants.
+
+(* ... and it does report it when no path is offered, for every client state and tape. *)
+Theorem C15_no_path_error : forall cs c d tape,
+  assign [] cs c d tape = ANoPath (map (fun _ => true) cs) tape.
+Proof. exact no_paths_error. Qed.
+Print Assumptions C15_no_path_error.
+
+Theorem C15_assign_never_panics : forall fps cs c d tape, assign fps cs c d tape <> APanic.
+Proof. exact assign_no_panic. Qed.
+Print Assumptions C15_assign_never_panics.
+
+(* Clause 3 (sticky / reset): a client that is not reset is in interleaved mode and keeps a path with the
+   fingerprint of its previous exchange; a client is reset (together with its filter: `resets` stands for
+   ResetInterleavedMode + Filter.Reset) only if it is not in interleaved mode or every offered path with
+   that fingerprint is kept by an earlier client. *)
+Theorem C15_sticky : forall fps cs c d tape,
+  Z.of_nat (length fps) <= max_i64 -> words tape -> word d ->
+  forall asg resets rest, assign fps cs c d tape = AOk asg resets rest ->
+  forall i s, nth_error cs i = Some s ->
+    (nth i resets false = false ->
+       in_ilv s = true /\ exists p, nth_error asg i = Some (Some p) /\ fp_of fps p = cs_fp s)
+    /\ (nth i resets false = true ->
+       in_ilv s = false \/
+       forall p, (p < length fps)%nat -> fp_of fps p = cs_fp s ->
+         exists j, (j < i)%nat /\ nth_error asg j = Some (Some p) /\ nth j resets false = false).
+Proof. exact sticky_clause. Qed.
+Print Assumptions C15_sticky.
+
+(* Clause 4: the reported offset is the fault-tolerant midpoint over one value per participating client
+   (its measured offset, 0 if all its exchanges failed), for every completion order of the measurements. *)
+Theorem C15_ftm_over_participants : forall arrived, round_offset arrived = ftm (map value_of arrived).
+Proof. exact round_offset_values. Qed.
+Print Assumptions C15_ftm_over_participants.
+
+Theorem C15_ftm_order_free : forall a a', Permutation a a' -> round_offset a = round_offset a'.
+Proof. exact round_offset_order_free. Qed.
+Print Assumptions C15_ftm_order_free.
+
+(* The property oracle holds for the model on ALL inputs: every round the model can produce, for all client
+   states, offered paths, tapes, peer behaviours and filter values, is accepted by C15_round_ok. *)
+Theorem C15_oracle_holds_for_model : forall fps cs hasfs d tape mss vss obs off rest,
+  length hasfs = length cs -> Z.of_nat (length fps) <= max_i64 -> words tape -> word d ->
+  run_round fps cs d tape mss vss = ROk obs off rest ->
+  C15_round_ok fps (to_cobs_list hasfs cs obs) 0 off = true.
+Proof. exact model_round_ok. Qed.
+Print Assumptions C15_oracle_holds_for_model.
+
+Theorem C15_oracle_holds_for_model_nopath : forall fps cs hasfs d tape mss vss post resets rest,
+  length hasfs = length cs ->
+  run_round fps cs d tape mss vss = RNoPath post resets rest ->
+  C15_round_ok fps (map (fun hs : bool * cstate => idle_cobs (fst hs) (snd hs)) (combine hasfs cs)) 1 0 = true
+  /\ resets = map (fun _ => true) cs.
+Proof. exact model_nopath_ok. Qed.
+Print Assumptions C15_oracle_holds_for_model_nopath.
+
+(* Clause 5a (rejection sampling): a draw below n is in [0, n) for every tape, it is the residue of the first
+   accepted word, and RandIntn panics exactly for n <= 0. *)
+Theorem C15_randintn_range : forall n c d tape v rest,
+  0 < n <= max_i64 -> words tape -> word d ->
+  rand_intn n c d tape = Ok (v, rest) -> 0 <= v < n /\ words rest.
+Proof. exact rand_intn_range. Qed.
+Print Assumptions C15_randintn_range.
+
+Theorem C15_randint_first_accepted : forall n t c d tape v rest,
+  loop31 n t c d tape = Ok (v, rest) ->
+  exists pre x,
+    ((tape = pre ++ x :: rest) \/ (tape = pre /\ rest = [] /\ x = d))
+    /\ Forall (fun y => y <= t) pre /\ t < x /\ v = Z.rem x (u32 n)
+    /\ (c = true -> pre = []).
+Proof. exact loop31_spec. Qed.
+Print Assumptions C15_randint_first_accepted.
+
+Theorem C15_randintn_panic_iff : forall n c d tape, rand_intn n c d tape = Panic <-> n <= 0.
+Proof. exact rand_intn_panic_iff. Qed.
+Print Assumptions C15_randintn_panic_iff.
+
+(* near-uniformity: for 2 <= n < 2^31 the accepted 32-bit words with residue v are exactly m*n + v for
+   acc_lo n v <= m < acc_hi n v; there are Q = 2^32 / n of them, Q - 1 for the one residue v = 2^32 mod n;
+   the number of accepted words n*Q - 1 is at least 2^31: under uniform words the probabilities of any two
+   results differ by 1/(n*Q - 1) <= 2^-31. *)
+Theorem C15_randint_near_uniform : forall n v x,
+  2 <= n <= max_i32 -> 0 <= v < n ->
+  (word x /\ thresh31 n < x /\ x mod n = v) <-> (exists m, x = m * n + v /\ acc_lo n v <= m < acc_hi n v).
+Proof. exact randint_residue_classes. Qed.
+Print Assumptions C15_randint_near_uniform.
+
+Theorem C15_randint_class_sizes : forall n v,
+  2 <= n <= max_i32 -> 0 <= v < n ->
+  acc_hi n v - acc_lo n v = (if v =? two32 mod n then two32 / n - 1 else two32 / n)
+  /\ n * (two32 / n) - 1 >= 2147483648.
+Proof. exact randint_class_sizes. Qed.
+Print Assumptions C15_randint_class_sizes.
+
+(* Clause 5b (reservoir): Sample fills min(k, n) slots; its pick calls are pick(i, i) for i < k' followed by
+   picks with destination in the reservoir and strictly increasing sources k' <= src < n; it panics exactly
+   for a negative argument.  (Distinctness of the sampled paths is part of C15_distinct.) *)
+Theorem C15_sample_picks : forall k n c d tape k' ps rest,
+  n <= max_i64 -> words tape -> word d ->
+  sample k n c d tape = Ok (k', ps, rest) ->
+  exists ps2, ps = init_picks k' ++ ps2
+    /\ Forall (pick_ok k' k' n) ps2
+    /\ StronglySorted (fun p q : Z * Z => snd p < snd q) ps2
+    /\ words rest.
+Proof. exact sample_picks. Qed.
+Print Assumptions C15_sample_picks.
+
 Theorem C15_sample_count : forall k n c d tape k' ps rest,
-  sample k n c d tape = Ok (k', ps, rest) -> k' = Z.min k n.
+  sample k n c d tape = Ok (k', ps, rest) -> k' = Z.min k n /\ 0 <= k /\ 0 <= n.
 Proof. exact sample_count. Qed.
 Print Assumptions C15_sample_count.
+
+Theorem C15_sample_panic_iff : forall k n c d tape, sample k n c d tape = Panic <-> k < 0 \/ n < 0.
+Proof. exact sample_panic_iff. Qed.
+Print Assumptions C15_sample_panic_iff.
+
+(* Uniformity of the reservoir with exactly uniform draws.
+   Full statement (NOT proved here): every k-subset of the n candidates is produced by the same number
+   ((n-k)!) of draw vectors.
+   Proved (partial): every candidate e < n is in the final reservoir for the same number of draw vectors,
+   namely the fraction k/n of all (k+1)(k+2)...n of them - for all k <= n.  cnt is a count of draw vectors
+   (C15_reservoir_cnt_counts), the model's picks are those of its draws and carrying them out on the
+   candidate indices is `run` (C15_reservoir_model_draws, C15_reservoir_run_picks). *)
+Theorem C15_reservoir_uniform_partial : forall k n e : nat,
+  (k <= n)%nat -> (e < n)%nat -> (cnt k e (seq 0 k) k (n - k) * n = k * total_range k (n - k))%nat.
+Proof. exact reservoir_inclusion_uniform. Qed.
+Print Assumptions C15_reservoir_uniform_partial.
+
+Theorem C15_reservoir_cnt_counts : forall k e res i m,
+  cnt k e res i m = length (filter (fun js => memb e (run k res i js)) (vectors i m))
+  /\ length (vectors i m) = total_range i m.
+Proof. intros. split; [apply cnt_counts|apply vectors_length]. Qed.
+Print Assumptions C15_reservoir_cnt_counts.
+
+Theorem C15_reservoir_model_draws : forall fuel k i c d tape ps rest,
+  0 <= i -> i + Z.of_nat fuel <= max_i64 -> words tape -> word d ->
+  sample_loop fuel k i c d tape = Ok (ps, rest) ->
+  exists js, length js = fuel /\ draws_ok i js /\ ps = draws_picks k i js.
+Proof. exact sample_loop_draws. Qed.
+Print Assumptions C15_reservoir_model_draws.
+
+Theorem C15_reservoir_run_picks : forall k js i res, draws_ok (Z.of_nat i) js ->
+  fold_left idx_pick (draws_picks (Z.of_nat k) (Z.of_nat i) js) res = run k res i (map Z.to_nat js).
+Proof. exact run_picks. Qed.
+Print Assumptions C15_reservoir_run_picks.
+
+(* ---- the hypotheses are satisfiable; the functions compute ---- *)
+Definition ex_client (il : bool) (fp : Z) : cstate := {| cs_en := true; cs_ref := il; cs_il := il; cs_fp := fp |}.
+
+(* three clients: the first two in interleaved mode on fingerprint 7 / 0 (the empty fingerprint), the third
+   fresh; offered: fingerprints [5; 0; 7; 7]; tape [0; 8]: the word 0 is rejected for the draw below 2, the word 8
+   puts the second remaining path into the reservoir *)
+Example C15_example_assign :
+  assign [5; 0; 7; 7] [ex_client true 7; ex_client true 0; ex_client false 0] false 4294967295 [0; 8]
+  = AOk [Some 2%nat; Some 1%nat; Some 3%nat] [false; false; true] [].
+Proof. vm_compute. reflexivity. Qed.
+
+(* the path is withdrawn: the client is reset; one path for two clients *)
+Example C15_example_withdrawn :
+  assign [5] [ex_client true 7; ex_client true 5] false 4294967295 []
+  = AOk [None; Some 0%nat] [true; false] [].
+Proof. vm_compute. reflexivity. Qed.
+
+Example C15_example_offset : round_offset [Some 30; None; Some (-5); Some 12] = Some 6.
+Proof. vm_compute. reflexivity. Qed.
+
+Example C15_example_threshold : (* 2^32 mod 6 = 4: the word 4 is rejected, 5 accepted *)
+  rand_intn 6 false 4294967295 [4; 5] = Ok (5, []) /\ rand_intn 6 true 4294967295 [4; 5] = Err
+  /\ rand_intn 6 false 3 [4] = Hang.
+Proof. vm_compute. repeat split. Qed.
+
+Example C15_example_inclusion : (cnt 2 3 (seq 0 2) 2 3 * 5 = 2 * total_range 2 3)%nat /\ total_range 2 3 = 60%nat.
+Proof. vm_compute. split; reflexivity. Qed.
